@@ -52,6 +52,11 @@ impl<'a, T> Iterator for Iter<'a, T> {
     type Item = &'a T;
 
     fn next(&mut self) -> Option<Self::Item> {
+        if self.index >= self.view.shape.elements() {
+            // Exhausted: stay exhausted, the odometer below would otherwise wrap around
+            return None;
+        }
+
         match self.view.dimensions().checked_sub(1) {
             Some(axis) => self.impl_next_rec(axis),
             None if self.index == 0 => {
